@@ -715,4 +715,297 @@ theorem is_timeout_step (ha : InvA B c) (hb : InvB B c) (hs : (g', l') ∈ (sys 
     cases hst <;> no_crash_case ha
     all_goals (step_simp; grind)
 
+theorem WaitOutcome.mono {g g2 : G} {u : Tid} {k : Nat} {d : Done} {w64 : Bool} {a e : Nat} {to : Int}
+    (h : WaitOutcome g u k d w64 a e to) (hm : ∀ m ∈ g.marks, m ∈ g2.marks)
+    (hs : (g.waits (u, k)).status = .waiting → (g2.waits (u, k)).status = .waiting) :
+    WaitOutcome g2 u k d w64 a e to := by
+  rcases h with h | ⟨h1, h2, h3, m, hmm, h4⟩ | ⟨h1, h2, h3, h4, h5, h6⟩
+  · exact Or.inl h
+  · exact Or.inr (Or.inl ⟨h1, h2, h3, m, hm m hmm, h4⟩)
+  · exact Or.inr (Or.inr ⟨h1, h2, h3, h4, h5, hs h6⟩)
+
+theorem done_wait_step (ha : InvA B c) (hb : InvB B c) (hs : (g', l') ∈ (sys B).step c.g (c.locals t)) :
+    ∀ u k d, ((c.set t g' l').locals u).done[k]? = some d → ∀ w64 a e to, d.op = .wait w64 a e to →
+      WaitOutcome (c.set t g' l').g u k d w64 a e to := by
+  intro u k d
+  have h0 := hb.done_wait u k d
+  have hlt := @done_lt B c hb u k d
+  have htid := ha.tid_eq t
+  have hlen := hb.done_len t
+  have hst := step_inv hs
+  clear hs
+  -- old entries: the outcome is stable
+  have hold : ∀ g2 : G, (c.locals u).done[k]? = some d → (∀ m ∈ c.g.marks, m ∈ g2.marks) →
+      ((c.g.waits (u, k)).status = .waiting → (g2.waits (u, k)).status = .waiting) →
+      ∀ w64 a e to, d.op = .wait w64 a e to → WaitOutcome g2 u k d w64 a e to :=
+    fun g2 hd hm hs w64 a e to hop => (h0 hd w64 a e to hop).mono hm hs
+  by_cases hut : u = t
+  · subst hut
+    have hcn := hb.cur_notify u
+    have hcw := hb.cur_wait u
+    cases hst <;> no_crash_case ha
+    case idle op rest hpc hp => cases op <;> (step_simp; exact fun hd => hold _ hd (fun _ h => h) (fun h => h))
+    case wAlloc hpc =>
+      step_simp
+      intro hd
+      refine hold _ hd (fun _ h => h) (fun h => ?_)
+      have := hlt hd
+      simp only [upd_apply]
+      split
+      · rfl
+      · exact h
+    case nLoopMark w' rest hpc hc hn hw hst' =>
+      step_simp
+      intro hd
+      refine hold _ hd (fun _ h => List.mem_append_left _ h) (fun h => ?_)
+      simp only [upd_apply]
+      split
+      · exfalso
+        rename_i heq
+        have := hlt hd
+        have hlw := ha.live_wait w' hw
+        have hwl := ha.wait_live w'.1 hlw.1
+        rw [← heq] at hlw hwl
+        simp only at hlw hwl
+        have h2 := hwl.1
+        rw [hlw.2] at h2
+        have := (Prod.mk.inj h2).2
+        omega
+      · exact h
+    case wFree hpc hw hp =>
+      step_simp
+      intro hd
+      refine hold _ hd (fun _ h => h) (fun h => ?_)
+      simp only [upd_apply]
+      split
+      · rename_i heq; rw [← heq]; exact h
+      · exact h
+    case wUnlockNe hpc hm =>
+      step_simp
+      rw [getElem?_snoc]
+      rintro (hd | ⟨rfl, rfl⟩)
+      · exact hold _ hd (fun _ h => h) (fun h => h)
+      · intro w64 a e to hop
+        have hc1 := hcw (by simp [hpc])
+        simp only at hop
+        rw [hc1] at hop
+        cases hop
+        exact Or.inl ⟨rfl, hb.loaded_ne u hpc⟩
+    case wUnlock hpc hm =>
+      step_simp
+      rw [getElem?_snoc]
+      rintro (hd | ⟨rfl, rfl⟩)
+      · exact hold _ hd (fun _ h => h) (fun h => h)
+      · intro w64 a e to hop
+        have hc1 := hcw (by simp [hpc])
+        simp only at hop
+        rw [hc1] at hop
+        cases hop
+        have hle := hb.loaded_eq u (by simp [hpc])
+        have hit := hb.is_timeout u (by simp [hpc])
+        have hwr := hb.wait_rec u (by simp [hpc])
+        have htf := hb.timed_flag u (by simp [hpc])
+        rw [hlen]
+        cases hti : (c.locals u).isTimeout
+        · -- Notified: counted by a notify on this address
+          have hst' := hit.2 hti
+          have hmem := (hb.notified_iff _).mp hst'
+          simp only [List.mem_map] at hmem
+          obtain ⟨m, hmm, hmw⟩ := hmem
+          have hma := hb.mark_addr m hmm
+          refine Or.inr (Or.inl ⟨by simp, hle, rfl, m, hmm, ?_, ?_⟩)
+          · rw [hmw, hwr.1]
+          · rw [← hma, hmw, hwr.2]
+        · have hst' := hit.1 hti
+          refine Or.inr (Or.inr ⟨by simp, hle, rfl, hst'.2, htf hst'.2, ?_⟩)
+          simp only
+          rw [← hwr.1]
+          exact hst'.1
+    case nUnlock hpc hm =>
+      step_simp
+      rw [getElem?_snoc]
+      rintro (hd | ⟨rfl, rfl⟩)
+      · exact hold _ hd (fun _ h => h) (fun h => h)
+      · intro w64 a e to hop
+        have hc1 := hcn (by simp [hpc])
+        simp only at hop
+        rw [hc1] at hop
+        cases hop
+    case nSharedNo hpc hsh =>
+      step_simp
+      rw [getElem?_snoc]
+      rintro (hd | ⟨rfl, rfl⟩)
+      · exact hold _ hd (fun _ h => h) (fun h => h)
+      · intro w64 a e to hop
+        have hc1 := hcn (by simp [hpc])
+        simp only at hop
+        rw [hc1] at hop
+        cases hop
+    case sPoint hpc =>
+      step_simp
+      rw [getElem?_snoc]
+      rintro (hd | ⟨rfl, rfl⟩)
+      · exact hold _ hd (fun _ h => h) (fun h => h)
+      · intro w64 a e to hop
+        obtain ⟨a', w', v', hc1⟩ := hb.cur_store u hpc
+        simp only at hop
+        rw [hc1] at hop
+        cases hop
+    all_goals (step_simp; exact fun hd => hold _ hd (fun _ h => h) (fun h => h))
+  · cases hst <;> no_crash_case ha
+    case wAlloc hpc =>
+      step_simp
+      simp only [hut, ↓reduceIte]
+      intro hd
+      refine hold _ hd (fun _ h => h) (fun h => ?_)
+      simp only [upd_apply]
+      split
+      · rfl
+      · exact h
+    case nLoopMark w' rest hpc hc hn hw hst' =>
+      step_simp
+      simp only [hut, ↓reduceIte]
+      intro hd
+      refine hold _ hd (fun _ h => List.mem_append_left _ h) (fun h => ?_)
+      simp only [upd_apply]
+      split
+      · exfalso
+        rename_i heq
+        have := hlt hd
+        have hlw := ha.live_wait w' hw
+        have hwl := ha.wait_live w'.1 hlw.1
+        rw [← heq] at hlw hwl
+        simp only at hlw hwl
+        have h2 := hwl.1
+        rw [hlw.2] at h2
+        have := (Prod.mk.inj h2).2
+        omega
+      · exact h
+    case wFree hpc hw hp =>
+      step_simp
+      simp only [hut, ↓reduceIte]
+      intro hd
+      refine hold _ hd (fun _ h => h) (fun h => ?_)
+      simp only [upd_apply]
+      split
+      · rename_i heq; rw [← heq]; exact h
+      · exact h
+    all_goals (step_simp; simp only [hut, ↓reduceIte]; exact fun hd => hold _ hd (fun _ h => h) (fun h => h))
+
+theorem marks_listed_step (ha : InvA B c) (hb : InvB B c) (hs : (g', l') ∈ (sys B).step c.g (c.locals t)) :
+    ∀ u, ((c.set t g' l').locals u).pc.inLoop = true →
+      ∀ m ∈ marksOf (c.set t g' l').g u ((c.set t g' l').locals u).serial,
+        ∃ n, ((c.set t g' l').locals u).slot = some n ∧ ((c.set t g' l').g.nodes n).live = true ∧
+          m.wait ∈ ((c.set t g' l').g.nodes n).waits := by
+  intro u
+  have h0 := hb.marks_listed u
+  have htid := ha.tid_eq t
+  have hmt := ha.mutex_iff t
+  have hmu := ha.mutex_iff u
+  have hst := step_inv hs
+  clear hs
+  by_cases hut : u = t
+  · subst hut
+    have hem := marksOf_empty_of_not_inLoop hb u
+    cases hst <;> no_crash_case ha
+    case idle op rest hpc hp => cases op <;> (step_simp; simp)
+    case nLoopMark w' rest hpc hc hn hw hst' =>
+      obtain ⟨n, hsl, hnl, hnk⟩ := ha.slot_ok u (by simp [hpc])
+      have hsuf := ha.cursor_ok u n (Or.inl hpc) hsl
+      have hmem : w' ∈ (c.g.nodes n).waits := hsuf.subset (by rw [hc]; exact List.mem_cons_self ..)
+      step_simp
+      intro _ m hm
+      unfold marksOf at hm h0
+      simp only [List.filter_append, List.mem_append, List.mem_filter, decide_eq_true_eq,
+        List.mem_singleton] at hm
+      rcases hm with hm | ⟨rfl, -⟩
+      · exact h0 (by simp [hpc]) m (List.mem_filter.mpr ⟨hm.1, by simpa using hm.2⟩)
+      · exact ⟨n, hsl, hnl, hmem⟩
+    case nGetMapNull hpc hal =>
+      have := hem (by simp [hpc])
+      step_simp
+      simp only [marksOf] at this ⊢
+      rw [this]; simp
+    case nMapGetNone hpc hg =>
+      have := hem (by simp [hpc])
+      step_simp
+      simp only [marksOf] at this ⊢
+      rw [this]; simp
+    case nHead n hpc hsl hn =>
+      have := hem (by simp [hpc])
+      step_simp
+      simp only [marksOf] at this ⊢
+      rw [this]; simp
+    all_goals (step_simp; simp only [marksOf] at h0 ⊢; grind)
+  · have hil : (c.locals u).pc.inLoop = true → (c.locals u).pc.holds = true := by
+      cases (c.locals u).pc <;> simp
+    cases hst <;> no_crash_case ha
+    all_goals (step_simp; simp only [marksOf, hut, ↓reduceIte] at h0 ⊢; grind)
+
+theorem cur_store_step (ha : InvA B c) (hb : InvB B c) (hs : (g', l') ∈ (sys B).step c.g (c.locals t)) :
+    ∀ u, ((c.set t g' l').locals u).pc = .sPoint → ∃ a w v, ((c.set t g' l').locals u).cur = .store a w v := by
+  intro u
+  have h0 := hb.cur_store u
+  have hst := step_inv hs
+  clear hs
+  by_cases hut : u = t
+  · subst hut
+    cases hst <;> no_crash_case ha
+    case idle op rest hpc hp => cases op <;> (step_simp; grind)
+    all_goals (step_simp; grind)
+  · step_simp; grind
+
+
+/-- `InvB` is preserved by every step of every thread (given `InvA`) -/
+theorem InvB.step (ha : InvA B c) (hb : InvB B c) (hs : (g', l') ∈ (sys B).step c.g (c.locals t)) :
+    InvB B (c.set t g' l') where
+  cur_wait := cur_wait_step ha hb hs
+  cur_notify := cur_notify_step ha hb hs
+  cur_store := cur_store_step ha hb hs
+  done_len := done_len_step ha hb hs
+  marks_nodup := marks_nodup_step ha hb hs
+  notified_iff := notified_iff_step ha hb hs
+  mark_alloc := mark_alloc_step ha hb hs
+  mark_addr := mark_addr_step ha hb hs
+  mark_by := mark_by_step ha hb hs
+  count_notify := count_notify_step ha hb hs
+  count_le := count_le_step ha hb hs
+  marks_listed := marks_listed_step ha hb hs
+  done_notify := done_notify_step ha hb hs
+  notified_unparked := notified_unparked_step ha hb hs
+  walked := walked_step ha hb hs
+  signal_head := signal_head_step ha hb hs
+  unlock_ok := unlock_ok_step ha hb hs
+  wait_rec := wait_rec_step ha hb hs
+  fresh_waiting := fresh_waiting_step ha hb hs
+  loaded_ne := loaded_ne_step ha hb hs
+  loaded_eq := loaded_eq_step ha hb hs
+  timed_flag := timed_flag_step ha hb hs
+  exit_ok := exit_ok_step ha hb hs
+  is_timeout := is_timeout_step ha hb hs
+  done_wait := done_wait_step ha hb hs
+
+theorem InvB.init {c : Cfg G L} (h : Init c) : InvB B c := by
+  obtain ⟨⟨sh, mem, hg⟩, hl⟩ := h
+  have hpc : ∀ t, (c.locals t).pc = .idle := fun t => by obtain ⟨p, hp⟩ := hl t; simp [hp, L.init]
+  have hdone : ∀ t, (c.locals t).done = [] := fun t => by obtain ⟨p, hp⟩ := hl t; simp [hp, L.init]
+  have hser : ∀ t, (c.locals t).serial = 0 := fun t => by obtain ⟨p, hp⟩ := hl t; simp [hp, L.init]
+  refine { cur_wait := ?_, cur_notify := ?_, cur_store := ?_, done_len := ?_, marks_nodup := ?_, notified_iff := ?_,
+           mark_alloc := ?_, mark_addr := ?_, mark_by := ?_, count_notify := ?_, count_le := ?_, marks_listed := ?_, done_notify := ?_,
+           notified_unparked := ?_, walked := ?_, signal_head := ?_, unlock_ok := ?_, wait_rec := ?_,
+           fresh_waiting := ?_, loaded_ne := ?_, loaded_eq := ?_, timed_flag := ?_, exit_ok := ?_,
+           is_timeout := ?_, done_wait := ?_ }
+  all_goals simp [hg, G.init, hpc, hdone, hser, marksOf]
+
+/-- the full invariant -/
+structure Inv (B : Nat) (c : Cfg G L) : Prop where
+  a : InvA B c
+  b : InvB B c
+
+/-- the invariant holds in every reachable configuration (induction on `Reach`: any number of
+    threads, any programs, any interleaving incl. spurious wake-ups and timeouts) -/
+theorem Inv.reach {c : Cfg G L} (hr : Reach (sys B) Init c) : Inv B c :=
+  Reach.invariant (Inv B) (fun _ h => ⟨InvA.init h, InvB.init h⟩)
+    (fun _ _ _ _ hi hs => ⟨hi.a.step hs, InvB.step hi.a hi.b hs⟩) hr
+
 end W2c2Verif.Futex
